@@ -14,10 +14,12 @@ Mirrors, with every fix of `fixes/{D28,D29,NC06a,NC06b,NC06c}_*.patch` applied:
 * `parse_timestamp_bytes`, `DateTimeImporter.write_part`, `DateImporter.write_part` (CPython's `datetime` arithmetic
   `_ymd2ord` is mirrored; `int()` of a bytes slice is `parseIntPy`).
 
-A `Chunk` is what an importer's `import_part` receives from the CSV reader for its column: the row offsets
-`column_inds[col_idx]`, the shared byte buffer `column_vals`, the column's start `column_offsets[col_idx]`, its
-capacity and `written_row_count`. Bytes are `Nat`s (only equality and membership in literal tables is used).
-Every subscript of an `@exetera_njit` kernel goes through `getE` / `setE` / a capacity check.
+A `Chunk` is what an importer's `import_part` receives from the CSV reader for its column: the column subscript
+`col_idx` and the number of columns of the staging arrays, the row offsets `column_inds[col_idx]`, the shared byte
+buffer `column_vals`, the column's start `column_offsets[col_idx]`, its capacity and `written_row_count`. Bytes are
+`Nat`s (only equality and membership in literal tables is used).
+Every subscript of an `@exetera_njit` kernel goes through `getE` / `setE` / a capacity check; the column subscript (the
+subscript of `column_offsets[col_idx]` and the first dimension of `column_inds[col_idx, ·]`) through `withCol`.
 -/
 namespace Exetera.Transforms
 
@@ -29,7 +31,20 @@ structure Chunk where
   off  : Nat           -- column_offsets[col_idx]
   cap  : Nat           -- column_offsets[col_idx + 1] - column_offsets[col_idx]
   rows : Nat           -- written_row_count
+  col  : Nat           -- col_idx / i_c : the column subscript the importer passes on
+  ncols : Nat          -- column_inds.shape[0] = len(column_offsets) - 1 : the number of columns of the staging arrays
   deriving Repr
+
+/-- the column subscript of a kernel call. Every import transform starts with `col_offset = column_offsets[col_idx]`
+    (`column_offsets` has `ncols + 1` entries) and then subscripts the first dimension of `column_inds` (`ncols` rows) with
+    the same `col_idx`, which is a parameter that no kernel assigns: the first such subscript is out of bounds exactly when
+    every later one is, so the check is made once, where the kernel evaluates the first of them — unconditionally in the two
+    categorical kernels (`len(column_inds[i_c])` is evaluated before the row loop), at the first row read in the others
+    (`readsInds` = "the row loop is entered"). `k` is the rest of the kernel. -/
+def withCol {α} (c : Chunk) (readsInds : Bool) (site : String) (k : Except Err α) : Except Err α :=
+  if c.ncols < c.col then .error (.oob "column_offsets[col_idx]")
+  else if readsInds && c.ncols ≤ c.col then .error (.oob site)
+  else k
 
 /-- running offsets `[b, b+l₀, b+l₀+l₁, …]` -/
 def offsets (b : Nat) : List Nat → List Nat
@@ -121,7 +136,7 @@ def catRows (bm : ByteMap) (c : Chunk) : (n i : Nat) → List Int → Except Err
         | .ok chunk' => catRows bm c n (i + 1) chunk'
 
 def categoricalTransform (bm : ByteMap) (c : Chunk) : Except Err (List Int) :=
-  catRows bm c (c.inds.length - 1) 0 (List.replicate c.rows 0)
+  withCol c true "column_inds[i_c]" (catRows bm c (c.inds.length - 1) 0 (List.replicate c.rows 0))
 
 /-- `CategoricalImporter`: the field's data after the given chunks -/
 def categoricalImport (cats : List (Bytes × Int)) : List Chunk → List Int → Except Err (List Int)
@@ -183,8 +198,8 @@ def leakyRows (bm : ByteMap) (c : Chunk) : (n i : Nat) → LeakyBuf → Except E
                   | .ok vals' => leakyRows bm c n (i + 1) { chunk := chunk', ftIdx := idx', ftVals := vals' }
 
 def leakyTransform (bm : ByteMap) (c : Chunk) : Except Err LeakyBuf :=
-  leakyRows bm c (c.inds.length - 1) 0
-    { chunk := List.replicate c.rows 0, ftIdx := List.replicate (c.rows + 1) 0, ftVals := List.replicate c.cap 0 }
+  withCol c true "column_inds[i_c]" (leakyRows bm c (c.inds.length - 1) 0
+    { chunk := List.replicate c.rows 0, ftIdx := List.replicate (c.rows + 1) 0, ftVals := List.replicate c.cap 0 })
 
 /-- the destination of a leaky categorical import: the categorical field, its `_freetext` companion (an indexed
     string: `indices` and `values`) and the importer's running offset -/
@@ -236,7 +251,8 @@ def cellsFrom (c : Chunk) : (n i : Nat) → Except Err (List Bytes)
           | .error e => .error e
           | .ok rest => .ok (cell :: rest)
 
-def cellsE (c : Chunk) : Except Err (List Bytes) := cellsFrom c c.rows 0
+def cellsE (c : Chunk) : Except Err (List Bytes) :=
+  withCol c (0 < c.rows) "column_inds[col_idx,row_idx]" (cellsFrom c c.rows 0)
 
 /-! ## fixed_string_transform -/
 
@@ -268,7 +284,7 @@ def fixedRows (c : Chunk) (strlen : Nat) : (n i : Nat) → Bytes → Except Err 
 
 /-- the `S<strlen>` buffer of one chunk, flat -/
 def fixedStringTransform (c : Chunk) (strlen : Nat) : Except Err Bytes :=
-  fixedRows c strlen c.rows 0 (List.replicate (c.rows * strlen) 0)
+  withCol c (0 < c.rows) "column_inds[col_idx,i]" (fixedRows c strlen c.rows 0 (List.replicate (c.rows * strlen) 0))
 
 def fixedImport (strlen : Nat) : List Chunk → Bytes → Except Err Bytes
   | [], data => .ok data
@@ -334,27 +350,38 @@ def boolCell (c : Chunk) (i : Nat) : Except Err (Option Int × Bool) :=
             | .error e => .error e
             | .ok val => .ok (boolLit val, false)
 
-/-- `numeric_bool_transform`: `.ok (elements, validity)`; the two exception codes become the `Exception` that
+/-- `numeric_bool_transform`: `.ok (elements, validity)` — the rows the kernel has written, i.e. the first
+    `written_row_count` elements of the two caller-supplied arrays, whose sizes are `capE = len(elements)` and
+    `capV = len(validity)`: every row writes `elements[row_idx]` and then `validity[row_idx]` (checked against the
+    capacities) BEFORE the validation mode is looked at. The two exception codes become the `Exception` that
     `raiseNumericException` raises. `invalid` is the truth value of `invalid_value` in the `bool` array. -/
-def boolRows (c : Chunk) (mode : Mode) (invalid : Bool) : (n i : Nat) → List Bool → List Bool → Except Err (List Bool × List Bool)
+def boolRows (c : Chunk) (mode : Mode) (invalid : Bool) (capE capV : Nat) :
+    (n i : Nat) → List Bool → List Bool → Except Err (List Bool × List Bool)
   | 0, _, el, va => .ok (el, va)
   | n + 1, i, el, va =>
     match boolCell c i with
     | .error e => .error e
-    | .ok (some v, _) => boolRows c mode invalid n (i + 1) (el ++ [v == 1]) (va ++ [true])
-    | .ok (none, empty) =>
-      -- exception_message 1 (empty, strict) / 2 (not parsable, strict or allow_empty): both raise `Exception`
-      if mode = .strict then .error (.other "Exception")
-      else if mode = .allowEmpty && !empty then .error (.other "Exception")
-      else boolRows c mode invalid n (i + 1) (el ++ [invalid]) (va ++ [false])
+    | .ok (r, empty) =>
+      if capE ≤ i then .error (.oob "elements[row_idx]")
+      else if capV ≤ i then .error (.oob "validity[row_idx]")
+      else
+        match r with
+        | some v => boolRows c mode invalid capE capV n (i + 1) (el ++ [v == 1]) (va ++ [true])
+        | none =>
+          -- exception_message 1 (empty, strict) / 2 (not parsable, strict or allow_empty): both raise `Exception`
+          if mode = .strict then .error (.other "Exception")
+          else if mode = .allowEmpty && !empty then .error (.other "Exception")
+          else boolRows c mode invalid capE capV n (i + 1) (el ++ [invalid]) (va ++ [false])
 
-def boolTransform (c : Chunk) (mode : Mode) (invalid : Bool) : Except Err (List Bool × List Bool) :=
-  boolRows c mode invalid c.rows 0 [] []
+def boolTransform (c : Chunk) (mode : Mode) (invalid : Bool) (capE capV : Nat) : Except Err (List Bool × List Bool) :=
+  withCol c (0 < c.rows) "column_inds[col_idx,row_idx]" (boolRows c mode invalid capE capV c.rows 0 [] [])
 
+/-- `NumericImporter.import_part` for `bool`: `elements = np.zeros(written_row_count)`,
+    `validity = np.ones(written_row_count)` — both capacities are the chunk's row count -/
 def boolImport (mode : Mode) (invalid : Bool) : List Chunk → List Bool × List Bool → Except Err (List Bool × List Bool)
   | [], st => .ok st
   | c :: cs, st =>
-    match boolTransform c mode invalid with
+    match boolTransform c mode invalid c.rows c.rows with
     | .error e => .error e
     | .ok (el, va) => boolImport mode invalid cs (st.1 ++ el, st.2 ++ va)
 
